@@ -27,9 +27,10 @@ let n_of_string s =
   n_of_i64 (Int64.of_string s)
 let str_n n = Printf.sprintf "%Lu" (i64_of_n n)
 
-let name_of_string s = if s = "-" then None else Some (List.map (fun c -> n_of_int (Char.code c)) (List.of_seq (String.to_seq s)))
+let name_of_string s = if s = "-" then None else if s = "\"\"" then Some [] else Some (List.map (fun c -> n_of_int (Char.code c)) (List.of_seq (String.to_seq s)))
 let string_of_name = function
   | None -> "-"
+  | Some [] -> "\"\""
   | Some l -> String.concat "" (List.map (fun c -> String.make 1 (Char.chr (Int64.to_int (i64_of_n c)))) l)
 
 let nh = 8 and ns = 16
